@@ -79,6 +79,7 @@ DEFAULTS = {
   "ofp_port_stats_request": {"port_no": OFPP_NONE},
   "ofp_queue_stats_request": {"port_no": OFPP_ALL, "queue_id": 0xffffffff},
   "ofp_vendor_stats_generic": {"vendor": REQUIRED, "data": b""},
+  "ofp_generic_stats_body": {"data": b""},
   "ofp_desc_stats": {"mfr_desc": "", "hw_desc": "", "sw_desc": "", "serial_num": "", "dp_desc": ""},
   "ofp_flow_stats": {"table_id": 0, "match": {}, "duration_sec": 0, "duration_nsec": 0, "priority": 0x8000,
                      "idle_timeout": 0, "hard_timeout": 0, "cookie": 0, "packet_count": 0, "byte_count": 0, "actions": []},
@@ -90,6 +91,7 @@ DEFAULTS = {
       "rx_frame_err", "rx_over_err", "rx_crc_err", "collisions")]),
   "ofp_queue_stats": {"port_no": 0, "queue_id": 0, "tx_bytes": 0, "tx_packets": 0, "tx_errors": 0},
   # ---- Nicira
+  "nxm_entry": {}, "nx_match": {"entries": []},
   "nx_role_request": {"role": 0}, "nx_role_reply": {"role": 0},
   "nx_flow_mod_table_id": {"set": 1},
   "nx_packet_in_format": {"format": 1},
@@ -125,7 +127,7 @@ MESSAGE_KINDS_TO_CONTROLLER = ["ofp_hello", "ofp_error", "ofp_echo_request", "of
                                "ofp_port_status", "ofp_stats_reply", "ofp_barrier_reply", "ofp_queue_get_config_reply"]
 OF10_MESSAGE_KINDS = sorted(set(MESSAGE_KINDS_TO_SWITCH + MESSAGE_KINDS_TO_CONTROLLER))
 OF10_ACTION_KINDS = list(R.ACTIONS) + ["ofp_action_generic"]
-STATS_REQUEST_KINDS = list(R.STATS_REQUEST)
+STATS_REQUEST_KINDS = list(R.STATS_REQUEST) + ["ofp_generic_stats_body"]
 STATS_REPLY_KINDS = ["ofp_desc_stats", "ofp_flow_stats", "ofp_aggregate_stats", "ofp_table_stats", "ofp_port_stats",
                      "ofp_queue_stats", "ofp_vendor_stats_generic"]
 QUEUE_KINDS = ["ofp_queue_prop_min_rate", "ofp_queue_prop_none", "ofp_queue_prop_generic", "ofp_packet_queue"]
@@ -171,7 +173,7 @@ def complete(frag):
   for k, v in f.items():
     if v is REQUIRED:
       raise ValueError("fragment of %s lacks required field %s" % (kind, k))
-  f.pop("$via", None)
+  f = _strip(f)
   if kind == "ofp_action_output" and f["port"] != OFPP_CONTROLLER:
     f["max_len"] = 0
   if kind in ("ofp_packet_in", "nxt_packet_in") and f["total_len"] is None:
@@ -197,17 +199,24 @@ def complete(frag):
   if kind == "nxm_entry":
     f = _norm_nxm(f)
   for name in ("actions", "properties"):
-    if name in f:
+    if isinstance(f.get(name), list):
       f[name] = _complete_list(f[name])
+  if isinstance(f.get("match"), dict):
+    f["match"] = _strip(f["match"])
   if kind == "ofp_port_status":
     d = dict(_PHY)
-    d.update(f["desc"])
+    d.update(_strip(f["desc"]))
     f["desc"] = d
   if "ports" in f:
-    f["ports"] = [_rep_or(p, lambda x: dict(_PHY, **x)) for p in f["ports"]]
+    f["ports"] = [_rep_or(p, lambda x: dict(_PHY, **_strip(x))) for p in f["ports"]]
   if "queues" in f:
     f["queues"] = [_rep_or(q, lambda x: complete({"k": "ofp_packet_queue", "f": x})["f"]) for q in f["queues"]]
   return {"k": kind, "f": f}
+
+
+def _strip(d):
+  """drop the "$..." keys, which say how to hand the values to the constructor, not what they are"""
+  return {k: v for k, v in d.items() if not k.startswith("$")}
 
 
 def _rep_or(e, fn):
@@ -253,14 +262,30 @@ def _kw(f, conv=None):
   return kw
 
 
-def build_match(m):
+def _dotted(n):
+  return "%d.%d.%d.%d" % (n >> 24, (n >> 16) & 255, (n >> 8) & 255, n & 255)
+
+
+def build_match(m, form="tuple"):
+  """form: how addresses are handed to the constructor -- "tuple" (IPAddr, bits) / "cidr" "a.b.c.d/n" text /
+  "text-tuple" ("a.b.c.d", bits) / "raw": Ethernet addresses as 6 raw octets, /32 addresses as bare IPAddr"""
   of, A = _pox()
   kw = {}
+  form = m.get("$form", form)
   for k, v in m.items():
+    if k == "$form":
+      continue
     if k in ("dl_src", "dl_dst"):
-      kw[k] = A.EthAddr(bytes(v))
+      kw[k] = bytes(v) if form == "raw" else A.EthAddr(bytes(v))
     elif k in ("nw_src", "nw_dst"):
-      kw[k] = (A.IPAddr(v[0]), v[1])
+      if form == "cidr" and v[0] & ((1 << (32 - v[1])) - 1) == 0:   # CIDR text must have a zero host part
+        kw[k] = "%s/%d" % (_dotted(v[0]), v[1])
+      elif form == "text-tuple":
+        kw[k] = (_dotted(v[0]), v[1])
+      elif form == "raw" and v[1] == 32:
+        kw[k] = A.IPAddr(v[0])
+      else:
+        kw[k] = (A.IPAddr(v[0]), v[1])
     else:
       kw[k] = v
   return of.ofp_match(**kw)
@@ -279,14 +304,18 @@ def build(frag):
   of, A = _pox()
   kind, f = frag["k"], frag["f"]
   mac = lambda v: A.EthAddr(bytes(v))
+  form = f.get("$form", "tuple")
+  if form == "raw":
+    mac = lambda v: bytes(v)          # hw_addr may be given as 6 raw octets
   if kind == "ofp_match":
-    return build_match(f)
+    return build_match({k: v for k, v in f.items() if k != "$form"}, form)
   if kind == "ofp_phy_port":
     return of.ofp_phy_port(**_kw(f, {"hw_addr": mac}))
   if kind in R.MESSAGES or kind in ("ofp_packet_out", "ofp_stats_request", "ofp_stats_reply", "ofp_flow_mod_table_id"):
     cls = _nx().ofp_flow_mod_table_id if kind == "ofp_flow_mod_table_id" else getattr(of, kind)
     conv = {
-      "data": _b, "body": _b, "hw_addr": mac, "match": build_match, "actions": build_list,
+      "data": _b, "body": _b, "hw_addr": mac, "match": build_match,
+      "actions": lambda v: build_list(v) if isinstance(v, list) else v,
       "ports": lambda ps: [build({"k": "ofp_phy_port", "f": p}) for p in R.expand_list(ps)],
       "desc": lambda d: build({"k": "ofp_phy_port", "f": d}),
       "queues": lambda qs: [build({"k": "ofp_packet_queue", "f": q}) for q in R.expand_list(qs)],
@@ -316,7 +345,7 @@ def build(frag):
     if kind == "ofp_action_nw_tos":
       return cls(**_kw(f))
     return cls(**_kw(f, {"data": _b, "body": _b}))
-  if kind in R.STATS_REQUEST or kind in R.STATS_REPLY or kind == "ofp_flow_stats":
+  if kind in R.STATS_REQUEST or kind in R.STATS_REPLY or kind in ("ofp_flow_stats", "ofp_generic_stats_body"):
     return getattr(of, kind)(**_kw(f, {"match": build_match, "actions": build_list, "data": _b}))
   if kind == "ofp_packet_queue":
     return of.ofp_packet_queue(**_kw(f, {"properties": build_list}))
@@ -397,6 +426,8 @@ def fields_of(obj, kind=None):
         out[name] = [frag_of(x) for x in v]
       elif isinstance(v, (bytes, bytearray)):
         out[name] = bytes(v)
+      elif type(v).__name__ == "ofp_generic_stats_body":
+        out[name] = bytes(v.data)       # the container POX uses for statistics types it has no class for
       else:
         out[name] = frag_of(v)
     else:
@@ -449,6 +480,11 @@ def build_nx_match(entries, via="parts"):
     return m
   if via == "kw":
     return nx.nx_match(**{e["field"]: nxm_value_to_py(e["field"], _b(e["value"])) for e in entries})
+  if via == "attr-entry":
+    m = nx.nx_match()
+    for e in entries:
+      setattr(m, e["field"] + "_entry", build_nxm(e))
+    return m
   raise ValueError(via)
 
 
@@ -498,9 +534,18 @@ def _build_nx(kind, f):
     if kw.get("total_len", 0) is None:
       del kw["total_len"]
     return nx.nxt_packet_in(**kw)
+  if kind == "nx_reg_load" and f.get("$form") == "entry":
+    # documented alternative: dst is an nxm_entry *instance* carrying the value to load
+    cls = _nxm_class_for_header(f["dst"])
+    n = R.NXM_FIELDS[R._nxm_name(f["dst"])][2]
+    raw = (f["value"] & ((1 << (8 * n)) - 1)).to_bytes(n, "big")
+    kw = {"dst": cls(nxm_value_to_py(cls.__name__, raw)), "offset": f["ofs_nbits"] >> 6, "nbits": (f["ofs_nbits"] & 0x3f) + 1}
+    return nx.nx_reg_load(**kw)
   if kind in ("nx_reg_move", "nx_reg_load", "nx_output_reg"):
     kw = {}
     for k, v in f.items():
+      if k.startswith("$"):
+        continue
       if k in ("src", "dst", "reg"):
         kw[k] = _nxm_class_for_header(v)
       elif k == "ofs_nbits":
@@ -529,6 +574,13 @@ def _build_nx(kind, f):
       elif k == "ofs_nbits":
         if f.get("dst", 0):
           kw["offset"], kw["nbits"] = v >> 6, (v & 0x3f) + 1
+      elif k == "slaves":
+        # canonical form: entries of the slave type; "$form": "int" uses the accepted shorthand of plain
+        # integers (which decodes to entries, so equality is not demanded for it)
+        st_cls = _nxm_class_for_header(f["slave_type"]) if "slave_type" in f else nx.NXM_OF_IN_PORT
+        kw[k] = list(v) if f.get("$form") == "int" else [st_cls(x) for x in v]
+      elif k.startswith("$"):
+        pass
       else:
         kw[k] = v
     return nx.nx_action_bundle(**kw)
@@ -677,6 +729,8 @@ def match(draw, consistent=True):
     for n in _subset(draw, ["nw_src", "nw_dst"]):
       m[n] = draw(addr)
     return m
+  if draw(st.integers(0, 3)) == 0:
+    m["$form"] = draw(st.sampled_from(["cidr", "text-tuple", "raw"]))
   cat = draw(st.sampled_from(["none", "ip", "ip", "arp", "other"]))
   if cat == "none":
     return m
@@ -750,6 +804,8 @@ def phy_port(draw):
   f = {}
   _opt(draw, f, "port_no", uint(16))
   _opt(draw, f, "hw_addr", macs())
+  if "hw_addr" in f and draw(st.integers(0, 4)) == 0:
+    f["$form"] = "raw"
   _opt(draw, f, "name", text(16))
   for n in ("config", "state", "curr", "advertised", "supported", "peer"):
     _opt(draw, f, n, uint(32), 0.3)
@@ -780,10 +836,13 @@ def packet_queue(draw, safe=True):
 
 
 @st.composite
-def stats_request_body(draw, safe=True):
-  kinds = [k for k in STATS_REQUEST_KINDS if not (safe and k == "ofp_vendor_stats_generic")]
+def stats_request_body(draw, safe=True, generic=False):
+  kinds = [k for k in STATS_REQUEST_KINDS if not (safe and k == "ofp_vendor_stats_generic")
+           and (generic or k != "ofp_generic_stats_body")]
   kind = draw(st.sampled_from(kinds))
   f = {}
+  if kind == "ofp_generic_stats_body":
+    _opt(draw, f, "data", st.binary(max_size=40))
   if kind in ("ofp_flow_stats_request", "ofp_aggregate_stats_request"):
     _opt(draw, f, "match", match())
     _opt(draw, f, "table_id", uint(8))
@@ -900,6 +959,8 @@ def message(draw, direction="any", safe=True, kinds=None):
   elif kind == "ofp_port_mod":
     _opt(draw, f, "port_no", uint(16))
     _opt(draw, f, "hw_addr", macs())
+    if "hw_addr" in f and draw(st.integers(0, 4)) == 0:
+      f["$form"] = "raw"
     for n in ("config", "mask", "advertise"):
       _opt(draw, f, n, uint(32))
   elif kind == "ofp_queue_get_config_request":
@@ -919,6 +980,8 @@ def message(draw, direction="any", safe=True, kinds=None):
     else:
       f["type"] = draw(st.integers(6, 0xfffe))
       f["body"] = draw(st.binary(max_size=24))
+      if draw(st.booleans()):
+        f["body"] = {"k": "ofp_generic_stats_body", "f": {"data": f["body"]}}
   elif kind == "ofp_stats_reply":
     _opt(draw, f, "flags", uint(16))
     rk = [k for k in STATS_REPLY_KINDS if not (safe and k in ("ofp_table_stats", "ofp_vendor_stats_generic"))]
